@@ -205,6 +205,17 @@ def field_reads_deep(f, inst, param_local, depth=0):
     by_key = {}
     for i in f.instances:
         by_key.setdefault(i["key"], []).append(i)
+    # the parameter handed on to a crate function (a private accessor / key function): what that function reads
+    for bi, t, r in c.calls():
+        if r is None or not r.get("local") or "inst" not in r:
+            continue
+        callee = f.instances[r["inst"]]
+        if callee.get("body") is None or callee.get("closure"):
+            continue
+        for ai, a in enumerate(t["args"]):
+            pl = a.get("c") or a.get("m")
+            if pl is not None and not pl["p"] and pl["l"] in holders and ai < callee["body"]["arg_count"]:
+                out |= field_reads_deep(f, callee, ai + 1, depth + 1)
     for b in c.blocks:
         for st in b["stmts"]:
             if st["k"] == "assign" and st["rv"]["k"] == "aggregate" and st["rv"].get("ak") == "closure" and not st["place"]["p"]:
